@@ -13,8 +13,7 @@ from common import Cvec, Cx, R, Rmat, Rvec, cfl, fl, flmat, max_rel_err
 
 from common import wiring_pre_build as pre_build  # noqa: E402,F401
 
-LEAN_MODULES = ["PyomaVerif.Props.C17", "PyomaVerif.Props.C17Jac", "PyomaVerif.Props.C17Vec", "PyomaVerif.Mutants.C17", "PyomaVerif.Mutants.C17Vec", "PyomaVerif.Props.WiringRun", "PyomaVerif.Props.WiringCalls", "PyomaVerif.Props.C17Table", "PyomaVerif.Mutants.C17Table", "PyomaVerif.Props.C17Cell", "PyomaVerif.Props.C12Build"]
-LEAN_MODULES = ["PyomaVerif.Props.C17", "PyomaVerif.Props.C17Jac", "PyomaVerif.Props.C17Vec", "PyomaVerif.Mutants.C17", "PyomaVerif.Mutants.C17Vec", "PyomaVerif.Props.WiringRun", "PyomaVerif.Props.WiringCalls", "PyomaVerif.Props.C17Table", "PyomaVerif.Mutants.C17Table", "PyomaVerif.Props.C17Cell", "PyomaVerif.Props.C17Stored"]
+LEAN_MODULES = ["PyomaVerif.Props.C17", "PyomaVerif.Props.C17Jac", "PyomaVerif.Props.C17Vec", "PyomaVerif.Mutants.C17", "PyomaVerif.Mutants.C17Vec", "PyomaVerif.Props.WiringRun", "PyomaVerif.Props.WiringCalls", "PyomaVerif.Props.C17Table", "PyomaVerif.Mutants.C17Table", "PyomaVerif.Props.C17Cell", "PyomaVerif.Props.C12Build", "PyomaVerif.Props.C17Stored"]
 THEOREMS = [
     # clause 1 on the function itself (Model/BuildHank.buildHank, op build_hank, stream build_hank[unc-guard]): calc_unc with a method
     # other than cov_mm never returns; a second component other than None only for cov_mm with calc_unc is True; the returned
